@@ -72,11 +72,15 @@ def rand_cfg(rng, kind, small=True, rv=None, tf=None, fill=False, inp=None):
 
 
 def ind_scenario(rng, fid, fam, cfg, n, style, twins=("batch",), tf=None, extra=0, pre_choices=(0, 1, 2),
-                 max_chunk=4, regular=None, form="candle"):
+                 max_chunk=4, regular=None, form="candle", reindex=False):
     st = make_stream(rng, n + extra, style, tf=tf, regular=regular)
     pre, chunks = compositions(rng, n, pre_choices, max_chunk)
+    prog = prog_for(pre, chunks)
+    if reindex:
+        # refresh the newest reading the way Hexital.calculate_index() does by default (index -1)
+        prog.append(("calculate_index", "", rng.choice([-1, -1, -2])))
     return {"id": fid, "fam": fam, "obj": "ind", "inds": [cfg], "stream": st,
-            "prog": prog_for(pre, chunks), "twins": list(twins), "form": form}
+            "prog": prog, "twins": list(twins), "form": form}
 
 
 def hex_scenario(rng, fid, fam, cfgs, n, style, twins=("batch",), hexcfg=None, tf=None, extra=0,
@@ -113,6 +117,7 @@ def fam_kinds(rng, pid, kinds, count, n=(12, 20), styles=STYLES, twins=("batch",
         nn = rng.randint(*n) + (10 if tf else 0) + (2 * max(cfg.p, cfg.p2, cfg.p3) if max(cfg.p, cfg.p2, cfg.p3) > 6 else 0)
         style = rng.choice(styles)
         out.append(ind_scenario(rng, f"{pid}/{kind}/{t}", "kinds", cfg, nn, style, twins, tf=tf,
+                                reindex=(pid == "C10" and rng.random() < 0.35),
                                 extra=rng.randint(1, 5) if "longer" in twins else 0,
                                 regular=tf_regular(rng, tf) if tf and rng.random() < 0.6 else None))
     return out
@@ -162,7 +167,7 @@ def fam_manager(rng, pid, count, fills=(False,), has=(False,), lifes=(None,), he
     for t in range(count):
         unit = units[t % len(units)]
         n_ = rng.choice([1, 1, 2, 3, 5, 7, 10, 15, 30, 45]) if unit in "ST" else rng.choice([1, 1, 2, 3, 4, 6])
-        tf = f"{unit}{n_}" if rng.random() < 0.92 else None
+        tf = f"{unit}{n_}" if (rng.random() < 0.92 and unit != "N") else None
         fill = rng.choice(fills) and bool(tf)
         ha = rng.choice(has)
         life = rng.choice(lifes)
@@ -265,9 +270,11 @@ def scenarios(pid, tier, rng):
     if pid == "C12":
         return fam_manager(rng, pid, k(300, 2000), fills=(True,), twins=("batch",))
     if pid == "C11":
-        return (fam_manager(rng, pid, k(260, 1600), has=(True,), twins=("batch",))
+        return (fam_manager(rng, pid, k(220, 1400), has=(True,), twins=("batch",))
                 + fam_manager(rng, pid, k(60, 300), has=(True,), twins=("batch",), kinds=("EMA", "RSI", "ATR", "KC"),
-                              tag="b"))
+                              tag="b")
+                # with a lifespan and no timeframe the recurrence still has to be that of the whole stream
+                + fam_manager(rng, pid, k(60, 300), has=(True,), lifes=(3, 5, 8), units=("N",), twins=(), tag="c"))
     if pid == "C15":
         return (fam_manager(rng, pid, k(160, 1000), lifes=(1, 2, 3, 5, 8), fills=(False, True))
                 + fam_manager(rng, pid, k(160, 1000), lifes=(6, 8, 12, 20), twins=("untrimmed",),
@@ -400,7 +407,8 @@ def fam_maintenance(rng, pid, count):
     for t in range(count):
         n = rng.randint(14, 22)
         if t % 3 == 0:       # standalone indicator
-            cfg = rand_cfg(rng, rng.choice(NESTED + SIMPLE), tf=pick_tf(rng) if rng.random() < 0.3 else None)
+            cfg = rand_cfg(rng, rng.choice(NESTED + SIMPLE), tf=pick_tf(rng) if rng.random() < 0.3 else None,
+                           rv=rng.choice([4, 4, 0, 1, 2, 3, 5]))
             sc = {"id": f"{pid}/ind/{cfg.kind}/{t}", "fam": "maint", "obj": "ind", "inds": [cfg],
                   "stream": make_stream(rng, n, "mixed", tf=cfg.timeframe), "twins": ["batch"],
                   "clause_props": {"exc": ["C14"], "batch": ["C14"], "value": ["C14"]}}
@@ -408,7 +416,8 @@ def fam_maintenance(rng, pid, count):
         else:
             tf = pick_tf(rng) if rng.random() < 0.35 else None
             kinds = [rng.choice(NESTED), rng.choice(SIMPLE), rng.choice(NESTED + SIMPLE)]
-            cfgs = _uniq([rand_cfg(rng, k, tf=tf if rng.random() < 0.5 else None) for k in kinds])
+            cfgs = _uniq([rand_cfg(rng, k, tf=tf if rng.random() < 0.5 else None, rv=rng.choice([4, 4, 0, 2, 3, 5]))
+                          for k in kinds])
             late = _uniq(cfgs + [rand_cfg(rng, rng.choice(NESTED + SIMPLE), tf=tf if rng.random() < 0.5 else None)])[len(cfgs):]
             sc = {"id": f"{pid}/hex/{'+'.join(c.kind for c in cfgs)}/{t}", "fam": "maint", "obj": "hex",
                   "inds": cfgs, "late": late, "hex": {}, "stream": make_stream(rng, n, "mixed", tf=tf),
@@ -490,6 +499,8 @@ def fam_interference(rng, pid, count):
             cfgs = [c.clone(timeframe=tf) for c in cfgs]
             flagged = rng.randrange(len(cfgs))
             cfgs[flagged].extra = dict(cfgs[flagged].extra, timeframe_fill=True)
+            for c in cfgs:      # the same timeframe, spelled differently by each member
+                c.extra = dict(c.extra, _tf_form=rng.choice(["upper", "lower", "enum"]))
         names = [c.build(standalone=False).name for c in cfgs]
         pre, chunks = compositions(rng, n - 6, (0, 2, 5), 5)
         prog = prog_for(pre, chunks)
@@ -613,6 +624,8 @@ def fam_hexital(rng, pid, count):
         base_tf = rng.choice([None, None, None, ladder[0]])
         cfgs = _uniq([rand_cfg(rng, rng.choice(ALL_KINDS), tf=rng.choice([None] + ladder))
                       for _ in range(nmem)])
+        for c in cfgs:
+            c.extra = dict(c.extra, _tf_form=rng.choice(["upper", "upper", "lower", "enum"]))
         fill = bool(base_tf) and rng.random() < 0.3
         ha = rng.random() < 0.2 and not fill
         tfs = [c.timeframe for c in cfgs] + [base_tf]
